@@ -5,7 +5,7 @@ Require Import Cirbo.Model.Base Cirbo.Model.Gate Cirbo.Model.Circuit Cirbo.Model
 Require Import Cirbo.Generated.Operators Cirbo.Generated.GateTypes Cirbo.Generated.CircuitCore
         Cirbo.Generated.CircuitAlgos.
 Require Import Cirbo.Proofs.DictFacts Cirbo.Proofs.TopSort Cirbo.Proofs.CircuitCoreGen Cirbo.Proofs.CircuitCoreGen2
-        Cirbo.Proofs.CircuitAlgosGen.
+        Cirbo.Proofs.CircuitAlgosGen Cirbo.Proofs.WFBase Cirbo.Proofs.WFEmplace.
 
 (* ---------------------------------------------------------------- sets as lists *)
 Lemma memb_app x (a b : list label) : memb x (a ++ b) = memb x a || memb x b.
@@ -129,8 +129,30 @@ Proof.
   destruct (mapM _ xs) as [r|e]; simpl; [|reflexivity]. destruct b; reflexivity.
 Qed.
 
+(* list(s) when every element of s is a gate *)
+Lemma set_to_list_gates c s :
+  (forall x, memb x s = true -> has_gate c x = true) -> set_to_list c s = canonical_block_gates c s.
+Proof.
+  intros H. unfold set_to_list.
+  replace (filter (fun x => negb (has_gate c x)) s) with (@nil label); [apply app_nil_r|].
+  symmetry. assert (Hs : forall x, In x s -> has_gate c x = true) by (intros x Hx; apply H, memb_In, Hx).
+  clear H. induction s as [|y s IH]; simpl; [reflexivity|].
+  rewrite (Hs y (or_introl eq_refl)). simpl. apply IH. intros x Hx. apply Hs. right. exact Hx.
+Qed.
+
+Lemma has_gate_emplace c l t ops c' :
+  emplace_gate c l t ops = Ok c' -> forall x, has_gate c' x = leqb x l || has_gate c x.
+Proof.
+  unfold emplace_gate. destruct (check_label_doesnt_exist l c); simpl; [|discriminate].
+  destruct (check_gates_exist ops c); simpl; [|discriminate]. intros [= <-] x.
+  unfold has_gate. rewrite emplace_raw_gates. apply dmem_dset.
+Qed.
+
+(* the states of the main loop: the regenerated one is (self, gates_for_block, old_to_new_names), the model's
+   (c, o2n, blk); gates_for_block is a set (no repetitions), blk a list, and every element is a gate of self *)
 Definition conn_rel (s1 : circuit * list label * dict label) (s2 : circuit * dict label * list label) : Prop :=
-  fst (fst s1) = fst (fst s2) /\ snd s1 = snd (fst s2) /\ forall x, memb x (snd (fst s1)) = memb x (snd s2).
+  fst (fst s1) = fst (fst s2) /\ snd s1 = snd (fst s2) /\ (forall x, memb x (snd (fst s1)) = memb x (snd s2)) /\
+  (forall x, memb x (snd (fst s1)) = true -> has_gate (fst (fst s1)) x = true).
 
 (* ---------------------------------------------------------------- connect_circuit *)
 Lemma gen_connect_circuit_eq c other tc oc right name ap :
@@ -160,9 +182,9 @@ Proof.
   apply bind_ext. intros order. change string with label.
   match goal with |- bind (foldM ?fg order ?sg) _ = bind (foldM ?fh order ?sh) _ =>
     assert (Hrel : res_rel conn_rel (foldM fg order sg) (foldM fh order sh));
-    [ apply foldM_rel; [|repeat split; reflexivity] | ]
+    [ apply foldM_rel; [|repeat split; try reflexivity; discriminate] | ]
   end.
-  { intros [[cg bg] og] [[ch oh] bh] l (Hc & Ho & Hb). simpl in Hc, Ho, Hb. subst ch oh.
+  { intros [[cg bg] og] [[ch oh] bh] l (Hc & Ho & Hb & Hg). simpl in Hc, Ho, Hb, Hg. subst ch oh.
     destruct (get_gate other l) as [g|e]; cbn [bind fst snd]; [|exact eq_refl].
     unfold map_list, map_get, dget_res.
     destruct (dmem mapping l); cbn [negb].
@@ -170,31 +192,62 @@ Proof.
       destruct (dget og l) as [nl|]; cbn [bind]; [|exact eq_refl].
       match goal with |- context [mapM ?f (gops g)] => destruct (mapM f (gops g)) as [ops|e] end;
         cbn [bind]; [|exact eq_refl].
-      destruct (dget (gates cg) nl) as [old|]; cbn [bind]; [|exact eq_refl].
+      destruct (dget (gates cg) nl) as [old|] eqn:Eold; cbn [bind]; [|exact eq_refl].
       rewrite remove_users_loop. cbn [bind]. rewrite add_users_loop. cbn [bind].
-      destruct (gtype_beq (gtyp g) INPUT); cbn [negb]; (split; [|split]); cbn [fst snd]; auto.
-      intros x. rewrite memb_set_add, memb_app, Hb. simpl. destruct (leqb x nl); reflexivity.
+      assert (Hgates : gates (add_users (remove_users cg (gops old) nl) ops nl) = gates cg).
+      { destruct (add_users_frame (remove_users cg (gops old) nl) ops nl) as (A & _).
+        destruct (remove_users_frame cg (gops old) nl) as (B & _). congruence. }
+      assert (Hhas : forall x, has_gate (set_gates (add_users (remove_users cg (gops old) nl) ops nl)
+                                 (dset (gates (add_users (remove_users cg (gops old) nl) ops nl)) nl
+                                       (mkGate (gtyp g) ops))) x = leqb x nl || has_gate cg x).
+      { intros x. unfold has_gate. simpl. rewrite Hgates. apply dmem_dset. }
+      destruct (gtype_beq (gtyp g) INPUT); cbn [negb]; (split; [|split; [|split]]); cbn [fst snd]; auto.
+      + intros x Hx. rewrite Hhas, (Hg x Hx). apply orb_true_r.
+      + intros x. rewrite memb_set_add, memb_app, Hb. simpl. destruct (leqb x nl); reflexivity.
+      + intros x. rewrite memb_set_add, Hhas. intros Hx. apply orb_true_iff in Hx.
+        destruct Hx as [Hx|Hx]; [rewrite (Hg x Hx); apply orb_true_r|rewrite Hx; reflexivity].
     - match goal with |- context [mapM ?f (gops g)] => destruct (mapM f (gops g)) as [ops|e] end;
         cbn [bind]; [|exact eq_refl].
       rewrite gen_emplace_gate_eq.
-      destruct (emplace_gate cg (prefix ++ l)%string (gtyp g) ops) as [c'|e]; cbn [bind]; [|exact eq_refl].
-      destruct (gtype_beq (gtyp g) INPUT); cbn [negb]; (split; [|split]); cbn [fst snd]; auto.
-      intros x. rewrite memb_set_add, memb_app, Hb. simpl. destruct (leqb x (prefix ++ l)%string); reflexivity. }
+      destruct (emplace_gate cg (prefix ++ l)%string (gtyp g) ops) as [c'|e] eqn:Ee; cbn [bind]; [|exact eq_refl].
+      pose proof (has_gate_emplace _ _ _ _ _ Ee) as Hhas.
+      destruct (gtype_beq (gtyp g) INPUT); cbn [negb]; (split; [|split; [|split]]); cbn [fst snd]; auto.
+      + intros x Hx. rewrite Hhas, (Hg x Hx). apply orb_true_r.
+      + intros x. rewrite memb_set_add, memb_app, Hb. simpl. destruct (leqb x (prefix ++ l)%string); reflexivity.
+      + intros x. rewrite memb_set_add, Hhas. intros Hx. apply orb_true_iff in Hx.
+        destruct Hx as [Hx|Hx]; [rewrite (Hg x Hx); apply orb_true_r|rewrite Hx; reflexivity]. }
   match goal with |- bind ?X _ = bind ?Y _ =>
     destruct X as [[[c1 blk1] o2n]|e1], Y as [[[c1' o2n'] blk2]|e2] end;
     simpl in Hrel; try contradiction; [|subst; reflexivity].
-  destruct Hrel as (Hc & Ho & Hb). simpl in Hc, Ho, Hb. subst c1' o2n'. cbn [bind].
+  destruct Hrel as (Hc & Ho & Hb & Hg). simpl in Hc, Ho, Hb, Hg. subst c1' o2n'. cbn [bind].
   unfold map_list, map_get, dget_res.
-  apply bind_ext. intros new_outs. rewrite gen_set_outputs_eq. apply bind_ext. intros c2.
+  apply bind_ext. intros new_outs. rewrite gen_set_outputs_eq.
+  apply bind_congr; [reflexivity|]. intros c2 E2.
   rewrite filterM_mapM, bind_assoc.
   apply bind_congr.
   { apply mapM_ext. intros i. destruct (dget (gates c2) i); reflexivity. }
   intros keep _. cbn [bind].
-  apply bind_ext. intros new_ins. rewrite gen_set_inputs_eq. apply bind_ext. intros c3.
-  apply bind_congr; [reflexivity|]. intros c4 _.
+  apply bind_ext. intros new_ins. rewrite gen_set_inputs_eq.
+  apply bind_congr; [reflexivity|]. intros c3 E3.
+  apply bind_congr; [reflexivity|]. intros c4 E4.
   rewrite bind_ret. destruct (negb (leqb name "")); [|reflexivity].
   apply bind_ext. intros bi. apply bind_ext. intros bo.
-  unfold set_to_list. rewrite (canonical_ext c4 blk1 blk2 Hb). reflexivity.
+  (* every element of gates_for_block is a gate of the final circuit: list(set) loses nothing *)
+  assert (G2 : gates c2 = gates c1).
+  { unfold set_outputs in E2. destruct (check_gates_exist _ c1); simpl in E2; [|discriminate].
+    injection E2 as <-. reflexivity. }
+  assert (G3 : gates c3 = gates c2).
+  { unfold set_inputs in E3. destruct (check_gates_exist _ c2); simpl in E3; [|discriminate].
+    destruct (forallb _ (gates c2)); [|discriminate].
+    destruct (set_inputs_loop c2 _ []); simpl in E3; [|discriminate]. injection E3 as <-. reflexivity. }
+  assert (G4 : gates c4 = gates c3).
+  { revert E4. apply (foldM_ok_inv _ (fun c' => gates c' = gates c3)); [|reflexivity].
+    intros s kb s' _ Hs. destruct (check_block_doesnt_exist _ s); simpl; [|discriminate].
+    repeat match goal with |- bind ?X _ = _ -> _ => destruct X; simpl; [|discriminate] end.
+    intros [= <-]. exact Hs. }
+  rewrite set_to_list_gates.
+  2:{ intros x Hx. unfold has_gate. rewrite G4, G3, G2. apply (Hg x Hx). }
+  rewrite (canonical_ext c4 blk1 blk2 Hb). reflexivity.
 Qed.
 
 (* ---------------------------------------------------------------- the wrappers *)
